@@ -72,14 +72,14 @@ func vxApplyLog(log []vxFSOp, n int, syncEnabled bool) *vxFS {
 		if !syncEnabled {
 			return false
 		}
-		for j := i + 1; j < n; j++ {
+		for j := i + 1; j < n && j < len(log); j++ {
 			if log[j].kind == "sync" && log[j].name == log[i].name {
 				return true
 			}
 		}
 		return false
 	}
-	for i := 0; i < n; i++ {
+	for i := 0; i < n && i < len(log); i++ {
 		op := log[i]
 		switch op.kind {
 		case "create":
@@ -198,7 +198,9 @@ func vxH_C05_crashImage() {
 	log := fs.log
 	// values of the two rounds must differ to tell the prefixes apart
 	vxAssume(layers[0][0].v.b[0] != layers[1][0].v.b[0])
-	n := 1 + vxChoose(len(log))
+	// n-1 operations had returned, operation n-1 (0-based) was in progress;
+	// n = len(log)+1: everything had returned
+	n := 1 + vxChoose(len(log)+1)
 	vxObserveInt("crash-index", n)
 	img := vxApplyLog(log, n, !noSync)
 	so2 := vxStoreOptions(img)
